@@ -14,6 +14,8 @@ Decides:
  B boundaries   offsets used to cut a cluster are byte offsets of character boundaries (char_indices + len_utf8; in
                 split_os_argument the width of the first character), never a constant or a character count
                 (found and fixed: `-ñ=v`); the width helper itself is evaluated as a TABLE over lead bytes (UTF-8: 1/2/3/4).
+ E equals value  once split_os_argument has seen `=` every result carries a value part (the empty one for `--name=`); a result without a
+                value part is built only where the input ended before any `=` (so `--name=` never takes the NEXT item as its value).
 Does not decide: that split_os_argument as a whole is a correct transducer for every byte string."""
 import re
 from core import *
